@@ -20,6 +20,7 @@ compose it with `C09_differ_script_engine` / `C10_differ_script_engine`: hypothe
 -/
 import XmlDiffModel.Props.C09E
 import XmlDiffModel.Proofs.Fin4
+import XmlDiffModel.Proofs.Pipeline
 
 namespace XmlDiffModel
 open XmlDiffModel.Acc XmlDiffModel.Rej XmlDiffModel.Along XmlDiffModel.Fin
@@ -64,6 +65,57 @@ theorem C10_differ_script_output (bis : Dmp.Bisect) (qn : QName) (cfg : Cfg) (L 
   obtain ⟨s', _, out, after, h1, h2, _, _, _, h6⟩ := differ_script_output bis qn cfg L R M fresh script final ft w
     hclean hshort htag hL hRn hdisj hfL hfR hM hR h
   exact ⟨s', out, after, h1, h2, h6⟩
+
+/-- **C09 and C10 for the whole pipeline model** - `match()` with any similarity oracle `sim`, script generation,
+the XML formatter (no text tags, no `use_replace`, no `WS_TEXT`) with the text engine inside and any `diff_bisect`
+behaviour, `finalize`: the differ completes, every handler accepts its action, `finalize` succeeds for every
+sufficiently large fuel and returns a tree without placeholder characters whose accept-all projection equals the
+right document as a value (`docEq`: ids and attribute order aside, ignored attributes aside; root tail dropped) and
+whose reject-all projection is the left document without its attributes.  Hypotheses on the two documents only: `L`
+clean, both made of elements without wrapper tags with texts of at most 27000 characters without private-use
+characters, attribute names outside the `diff:` namespace and distinct per element, node ids of the two documents
+distinct and below `fresh`. -/
+theorem C09_C10_pipeline (bis : Dmp.Bisect) (sim : Sim) (qn : QName) (cfg : Cfg) (L R : Tree) (fresh : Nat)
+    (ft : List Str) (w : Bool) (hF : 0 < cfg.F)
+    (hclean : CleanT L) (hshort : Names.AllP ShortP L) (htag : Names.AllP TagOK L) (hkL : L.payload.kind = .elem)
+    (hL : (Tree.ids L).Nodup) (hRn : (Tree.ids R).Nodup) (hdisj : ∀ i ∈ Tree.ids L, i ∉ Tree.ids R)
+    (hfL : ∀ i ∈ Tree.ids L, i < fresh) (hfR : ∀ i ∈ Tree.ids R, i < fresh)
+    (hR : ∀ x ∈ Tree.bfs R, (keys x.payload.attrs).Nodup ∧ XClean (fun k => isDiffKey k = false) x ∧
+      ShortP x.payload ∧ TagOK x.payload) :
+    ∃ script final s' out after,
+      scriptGen qn cfg L R (matchNodes cfg sim L R) fresh = .ok (script, final) ∧
+      runFmtE false bis qn (fstate0 L fresh ft [] w) script = .ok s' ∧
+      (∃ N, ∀ f, N ≤ f → undoElement f s'.ph diffElemList s'.tree = .ok (out, after)) ∧
+      Undo.PlainT s'.ph out ∧
+      Chw.docEq cfg.ignored (accFT out) (setTailT none R) ∧ rejFT out = setTailT none (bare L) :=
+  pipeline bis sim qn cfg L R fresh ft w hF hclean hshort htag hkL hL hRn hdisj hfL hfR hR
+
+/-- Non-vacuity of the hypotheses of `C09_C10_pipeline` on the smallest pair of documents (the concrete runs above and
+in `C09E.lean` exercise the conclusions on larger ones). -/
+example :
+    let e : Payload := ⟨.elem, "a".toList, [], none, none⟩
+    let L : Tree := .node 0 e []
+    let R : Tree := .node 10 e []
+    CleanT L ∧ Names.AllP ShortP L ∧ Names.AllP TagOK L ∧ L.payload.kind = .elem ∧ (Tree.ids L).Nodup ∧
+      (Tree.ids R).Nodup ∧ (∀ i ∈ Tree.ids L, i ∉ Tree.ids R) ∧ (∀ i ∈ Tree.ids L, i < 20) ∧ (∀ i ∈ Tree.ids R, i < 20) ∧
+      ∀ x ∈ Tree.bfs R, (keys x.payload.attrs).Nodup ∧ XClean (fun k => isDiffKey k = false) x ∧ ShortP x.payload ∧
+        TagOK x.payload := by
+  intro e L R
+  have hlow : Undo.Low ([] : Str) := fun c hc => by cases hc
+  have htok : TextOK (none : Option Str) := ⟨hlow, by simp⟩
+  have hsh : ShortP e := ⟨Nat.zero_le _, Nat.zero_le _⟩
+  have htg : TagOK e := by constructor <;> decide
+  refine ⟨?_, ?_, ?_, rfl, by decide, by decide, by decide, by decide, by decide, ?_⟩
+  · simp only [L, CleanT, CleanL, and_true]
+    exact ⟨fun kv hkv => (by cases hkv), htok, htok⟩
+  · simp only [L, Names.AllP, Names.AllPL, and_true]; exact hsh
+  · simp only [L, Names.AllP, Names.AllPL, and_true]; exact htg
+  · intro x hx
+    have hb : Tree.bfs R = [R] := rfl
+    rw [hb] at hx
+    simp only [List.mem_cons, List.mem_nil_iff, or_false] at hx
+    subst hx
+    exact ⟨List.nodup_nil, ⟨rfl, htok, htok, fun k hk => (by cases hk)⟩, hsh, htg⟩
 
 private def exP (tag : String) (attrs : List (String × String)) (tx tl : Option String) : Payload :=
   ⟨.elem, tag.toList, attrs.map (fun kv => (kv.1.toList, kv.2.toList)), tx.map String.toList, tl.map String.toList⟩
